@@ -22,10 +22,13 @@ class Namer:
         self.n += 1
         return f"{stem}{self.n}"
 
-    def local(self, stem):
-        """a name that may collide across files when clashes are wanted"""
+    def local(self, stem, taken=()):
+        """a name that may collide across files when clashes are wanted (never with [taken]: the names
+        already used in the same scope)"""
         if self.clash and self.rng.random() < 0.7:
-            return self.rng.choice(self.pool)
+            n = self.rng.choice(self.pool)
+            if n not in taken:
+                return n
         return self.uniq(stem)
 
 
@@ -38,10 +41,10 @@ def _doc(rng, nm, ind):
 def gen(rng, nfiles=None, clash=False, modclash=False, multiuse=False, children=False, extra=False):
     nm = Namer(rng, clash)
     nfiles = nfiles or rng.choice([2, 3, 4])
+    if multiuse:
+        nfiles = max(nfiles, 3)
     files, modules, meta_multi, meta_children = {}, [], False, False
-    clash_names = {}
-    order = list(range(nfiles))
-    for i in order:
+    for i in range(nfiles):
         d = rng.choice(DIRS)
         fname = f"{'abcdefgh'[rng.randrange(8)]}{i}_{rng.randrange(100)}.f90"
         lines = []
@@ -67,8 +70,10 @@ def gen(rng, nfiles=None, clash=False, modclash=False, multiuse=False, children=
             tnames.append(base)
             lines.append(f"  type :: {base}")
             lines += _doc(rng, nm, "    ")
+            comps = []
             for _ in range(rng.choice([1, 2])):
-                c = nm.local("c")
+                c = nm.local("c", comps)
+                comps.append(c)
                 lines.append(f"    integer :: {c}")
                 lines += _doc(rng, nm, "      ")
             lines.append(f"  end type {base}")
@@ -79,12 +84,14 @@ def gen(rng, nfiles=None, clash=False, modclash=False, multiuse=False, children=
                 t = nm.uniq("kid_t")
                 tnames.append(t)
                 lines.append(f"  type, extends({base}) :: {t}")
-                c = nm.local("c")
+                c = nm.local("c", comps)
                 lines.append(f"    real :: {c}")
                 lines.append(f"  end type {t}")
         # variables
+        mvars = []
         for _ in range(rng.choice([1, 2, 3])):
-            v = nm.local("v")
+            v = nm.local("v", mvars + ["init", "solve"])
+            mvars.append(v)
             typ = rng.choice(["integer", "real", "logical"] + ([f"type({tnames[0]})"] if tnames else []))
             lines.append(f"  {typ} :: {v}")
             lines += _doc(rng, nm, "    ")
@@ -100,27 +107,23 @@ def gen(rng, nfiles=None, clash=False, modclash=False, multiuse=False, children=
         lines.append("contains")
         for k, p in enumerate(pnames):
             # distinct dummy-argument types keep the generic interface unambiguous
-            a = nm.local("a")
-            b = nm.local("b")
-            if b == a:
-                b = nm.uniq("b")
+            a = nm.local("a", [p])
+            b = nm.local("b", [p, a])
             lines.append(f"  subroutine {p}({a}, {b})")
             lines += _doc(rng, nm, "    ")
             lines.append(f"    integer, intent(in) :: {a}")
             lines += _doc(rng, nm, "      ")
             lines.append(f"    real, intent(out) :: {b}")
-            loc = nm.local("l")
-            if loc not in (a, b):
-                lines.append(f"    integer :: {loc}")
+            loc = nm.local("l", [p, a, b])
+            lines.append(f"    integer :: {loc}")
             lines.append(f"    {b} = {a}")
             if rng.random() < 0.5:
-                ip = nm.local("inner")
-                if ip not in (a, b, loc, p):
-                    lines.append(f"    call {ip}()")
-                    lines.append("  contains")
-                    lines.append(f"    subroutine {ip}()")
-                    lines += _doc(rng, nm, "      ")
-                    lines.append(f"    end subroutine {ip}")
+                ip = nm.local("inner", [p, a, b, loc] + pnames + mvars)
+                lines.append(f"    call {ip}()")
+                lines.append("  contains")
+                lines.append(f"    subroutine {ip}()")
+                lines += _doc(rng, nm, "      ")
+                lines.append(f"    end subroutine {ip}")
             lines.append(f"  end subroutine {p}")
         lines.append(f"end module {mname}")
         if mname != "twin":
